@@ -409,18 +409,9 @@ Proof.
     simpl in PH. destruct (tops k0) eqn:T; [|discriminate]. inversion E; subst. split.
     + assert (QC : QTags (class_flags s)).
       { clear E. unfold class_flags.
-        assert (G : forall l s0, QTags s0 ->
-                  QTags (fold_left (fun s1 p0 => let a := fst p0 in let x := snd p0 in
-                          if a_freed x then s1 else
-                          match a_state x with
-                          | SPrep (_ :: _) => emit s1 (EModel M_PREPHELD a)
-                          | SReady _ _ _ => if existsb (child_refs (actors s) a) (owned_children (a_state x))
-                                            then emit s1 (EModel M_CHILDCYCLE a) else s1
-                          | _ => s1
-                          end) l s0)).
-        { induction l as [|[a x] l IH]; simpl; intros s0 Q0; auto.
-          apply IH. destruct (a_freed x); auto. destruct (a_state x) as [[|c hl]| |]; auto using qtags_emit.
-          destruct (existsb _ _); auto using qtags_emit. }
+        assert (G : forall (f : N * actor -> option ev) l s0, QTags s0 -> QTags (fold_left (fun s1 p0 => emit_opt s1 (f p0)) l s0)).
+        { intros f l. induction l as [|p0 l IH]; simpl; intros s0 Q0; auto.
+          apply IH. unfold emit_opt. destruct (f p0); auto using qtags_emit. }
         apply G; auto. }
       destruct QC as [A B C D H]. constructor; auto.
     + apply work_tags_tops; auto.
